@@ -214,13 +214,33 @@ crate::harnesses! {
         vcheck!(lexical_write_float::binary::fast_log2(1u32 << k) == k as i32, "fast_log2(2^k) == k");
     }
 
+    /// radix 2 with max_significant_digits 1..=3, both round modes, every f32 in the binade [1, 2) (all 2^23 mantissas).
+    /// (the bit-level contract of truncate_and_round is proved for every mantissa by the Verus unit wf_bintrunc)
+    /// @prop C14
+    /// @feat pow2 radix
+    /// @bound f32 values in [1, 2) and (-2, -1]
+    /// @fn lexical-write-float::binary::truncate_and_round
+    /// @fn lexical-write-float::binary::write_float
+    /// @timeout 1500
+    #[cfg_attr(kani, kani::unwind(40))]
+    fn wbin_maxdigits_r2_binade() {
+        const F: u128 = crate::radix_format(2);
+        let bits: u32 = any(); assume((bits >> 23) & 0xFF == 127);
+        let v = f32::from_bits(bits);
+        let max: usize = any(); assume(max >= 1 && max <= 3);
+        let truncate: bool = any();
+        let r = cmp_wbin_maxdigits_f32::<F>(v, 2, 2, 2, max, truncate);
+        vcheck!(r.is_ok(), "radix 2: output == float rounded to max_significant_digits");
+    }
+
     /// radix 2 with max_significant_digits 1..=3, both round modes, every finite f32.
     /// @prop C14
-    /// @mem 10
+    /// @tier thorough
+    /// @mem 14
     /// @feat pow2 radix
     /// @fn lexical-write-float::binary::truncate_and_round
     /// @fn lexical-write-float::binary::write_float
-    /// @timeout 2400
+    /// @timeout 5400
     #[cfg_attr(kani, kani::unwind(40))]
     fn wbin_maxdigits_r2() {
         const F: u128 = crate::radix_format(2);
@@ -231,9 +251,9 @@ crate::harnesses! {
         vcheck!(r.is_ok(), "radix 2: output == float rounded to max_significant_digits");
     }
 
-    /// radix 16 with max_significant_digits 1..=2, both round modes, every finite f32.
+    /// radix 16 with max_significant_digits 1..=2, both round modes, f32 with binary exponent in -7..=7.
     /// @prop C14
-    /// @mem 10
+    /// @bound f32 values with binary exponent in -7..=7
     /// @feat pow2 radix
     /// @fn lexical-write-float::binary::truncate_and_round
     /// @fn lexical-write-float::binary::{write_float_scientific, write_float_positive_exponent, write_float_negative_exponent} (digit alignment)
@@ -241,7 +261,8 @@ crate::harnesses! {
     #[cfg_attr(kani, kani::unwind(16))]
     fn wbin_maxdigits_r16() {
         const F: u128 = crate::radix_format(16);
-        let bits: u32 = any(); let v = f32::from_bits(bits); assume(v.is_finite());
+        let bits: u32 = any(); assume((bits >> 23) & 0xFF >= 120 && (bits >> 23) & 0xFF <= 134);
+        let v = f32::from_bits(bits);
         let max: usize = any(); assume(max >= 1 && max <= 2);
         let truncate: bool = any();
         let r = cmp_wbin_maxdigits_f32::<F>(v, 16, 16, 16, max, truncate);
